@@ -514,7 +514,7 @@ class ClientSSM(SSM):
                 self.actualWindowSize = min(apdu.apduWin, self.ssmSAP.proposedWindowSize)
                 self.lastSequenceNumber = 0
                 self.initialSequenceNumber = 0
-                self.set_state(SEGMENTED_CONFIRMATION, self.segmentTimeout)
+                self.set_state(SEGMENTED_CONFIRMATION, self.segmentTimeout * 4)
 
         # some kind of problem
         elif (apdu.apduType == ErrorPDU.pduType) or (apdu.apduType == RejectPDU.pduType) or (apdu.apduType == AbortPDU.pduType):
@@ -585,7 +585,7 @@ class ClientSSM(SSM):
                 self.actualWindowSize = apdu.apduWin
                 self.lastSequenceNumber = 0
                 self.initialSequenceNumber = 0
-                self.set_state(SEGMENTED_CONFIRMATION, self.segmentTimeout)
+                self.set_state(SEGMENTED_CONFIRMATION, self.segmentTimeout * 4)
 
                 # send back a segment ack
                 segack = SegmentAckPDU( 0, 0, self.invokeID, self.initialSequenceNumber, self.actualWindowSize )
@@ -654,7 +654,7 @@ class ClientSSM(SSM):
             if _debug: ClientSSM._debug("    - segment %s received out of order, should be %s", apdu.apduSeq, (self.lastSequenceNumber + 1) % 256)
 
             # segment received out of order
-            self.restart_timer(self.segmentTimeout)
+            self.restart_timer(self.segmentTimeout * 4)
             segack = SegmentAckPDU(1, 0, self.invokeID, self.lastSequenceNumber, self.actualWindowSize)
             self.request(segack)
             return
@@ -680,7 +680,7 @@ class ClientSSM(SSM):
             if _debug: ClientSSM._debug("    - last segment in the group")
 
             self.initialSequenceNumber = self.lastSequenceNumber
-            self.restart_timer(self.segmentTimeout)
+            self.restart_timer(self.segmentTimeout * 4)
             segack = SegmentAckPDU(0, 0, self.invokeID, self.lastSequenceNumber, self.actualWindowSize)
             self.request(segack)
 
@@ -688,7 +688,7 @@ class ClientSSM(SSM):
             # wait for more segments
             if _debug: ClientSSM._debug("    - wait for more segments")
 
-            self.restart_timer(self.segmentTimeout)
+            self.restart_timer(self.segmentTimeout * 4)
 
     def segmented_confirmation_timeout(self):
         if _debug: ClientSSM._debug("segmented_confirmation_timeout")
@@ -998,7 +998,7 @@ class ServerSSM(SSM):
         # initialize the state
         self.lastSequenceNumber = 0
         self.initialSequenceNumber = 0
-        self.set_state(SEGMENTED_REQUEST, self.segmentTimeout)
+        self.set_state(SEGMENTED_REQUEST, self.segmentTimeout * 4)
 
         # send back a segment ack
         segack = SegmentAckPDU(0, 1, self.invokeID, self.initialSequenceNumber, self.actualWindowSize)
@@ -1034,7 +1034,7 @@ class ServerSSM(SSM):
             if _debug: ServerSSM._debug("    - segment %d received out of order, should be %d", apdu.apduSeq, (self.lastSequenceNumber + 1) % 256)
 
             # segment received out of order
-            self.restart_timer(self.segmentTimeout)
+            self.restart_timer(self.segmentTimeout * 4)
 
             # send back a segment ack
             segack = SegmentAckPDU(1, 1, self.invokeID, self.initialSequenceNumber, self.actualWindowSize)
@@ -1064,7 +1064,7 @@ class ServerSSM(SSM):
                 if _debug: ServerSSM._debug("    - last segment in the group")
 
                 self.initialSequenceNumber = self.lastSequenceNumber
-                self.restart_timer(self.segmentTimeout)
+                self.restart_timer(self.segmentTimeout * 4)
 
                 # send back a segment ack
                 segack = SegmentAckPDU(0, 1, self.invokeID, self.initialSequenceNumber, self.actualWindowSize)
@@ -1074,7 +1074,7 @@ class ServerSSM(SSM):
             # wait for more segments
             if _debug: ServerSSM._debug("    - wait for more segments")
 
-            self.restart_timer(self.segmentTimeout)
+            self.restart_timer(self.segmentTimeout * 4)
 
     def segmented_request_timeout(self):
         if _debug: ServerSSM._debug("segmented_request_timeout")
